@@ -78,6 +78,18 @@ def gen_cases(tier, seed):
     for name in sorted(PROXES):
         for v in range(3):
             cases.append(dict(kind="prox", name=name, variant=v))
+    # process histories: ordered pairs of differently-typed calls, each pair in a FRESH interpreter
+    hist_names = [n for n in sorted(FUNCS) if n.startswith("thresh.")] + ["prox.L1Reg", "prox.LInfProj", "prox.L1Proj"]
+    if T:
+        hist_names = sorted(FUNCS) + ["prox." + n for n in sorted(PROXES)]
+    for name in hist_names:
+        nv = 3 if name.startswith("prox.") else min(3, FUNCS[name][0])
+        for a in range(nv):
+            for b in range(nv):
+                if a != b:
+                    cases.append(dict(kind="prochist", name=name, first=a, then=b))
+    # subprocess cases first: they are the slowest, so they must not form the tail of the run
+    cases.sort(key=lambda c: 0 if c["kind"] == "prochist" else 1)
     return cases
 
 
@@ -464,7 +476,39 @@ def run_prox(case, seed):
                 outcome="ok" if not viol else "violation:" + viol[0]["oracle"], viol=viol)
 
 
+_solo = {}
+
+
+def _spawn(tokens):
+    import os
+    import subprocess
+    import sys
+    env = dict(os.environ)
+    r = subprocess.run([sys.executable, "-W", "ignore", "-m", "vf.prochist"] + tokens, capture_output=True, text=True,
+                       timeout=600, env=env, cwd=os.environ.get("VERIF_HOME", "/verif"))
+    for line in r.stdout.splitlines():
+        if line.startswith("PROCHIST "):
+            return line[9:]
+    raise RuntimeError("prochist driver failed: " + r.stderr[-400:])
+
+
+def run_prochist(case, seed):
+    name = case["name"]
+    tok_b = "%s:%d" % (name, case["then"])
+    tok_a = "%s:%d" % (name, case["first"])
+    solo = _spawn([tok_b])
+    after = _spawn([tok_a, tok_b])
+    viol = []
+    if solo != after:
+        viol.append(dict(oracle="process-history", key=dict(site=name, when="result depends on an earlier call in the same process"),
+                         detail="%s variant %d alone gives [%s]; after variant %d was called first in the process it gives [%s] "
+                                "(variants: 0 complex128, 1 complex64, 2 float64)" % (name, case["then"], solo, case["first"], after)))
+    return dict(states=2, transitions=3, traces=2, nontrivial=True, outcome="ok" if not viol else "violation:process-history", viol=viol)
+
+
 def run_case(case, seed):
+    if case["kind"] == "prochist":
+        return run_prochist(case, seed)
     if case["kind"] == "op":
         return run_op(case, seed)
     if case["kind"] == "func":
